@@ -19,13 +19,14 @@ func init() { register(&Spec{ID: "C06", Targets: []load.Target{load.Linux}, Run:
 
 func runC06(c *core.Ctx) {
 	runFixtures(c, "drop", "valid")
-	c.Explain("Structural clauses of C06 decided from source: (R06.1) every strings.HasPrefix test of a name against a stored path (mount keys in mount.mountPoint, record keys in the in-memory store's listing) uses a prefix ending in \"/\" — 'a' never captures 'ab'; (R06.2) in the mount-table scan, every update of the best-so-far pair on the prefix path is guarded by a strict length comparison between the candidate and the current best, so the result does not depend on iteration order, and the exact-match path stores the candidate itself; (R06.3) every MountFS branch of the helpers (and mount.Rename per name) delegates with the file system and sub-path of ONE Mount call and translates the error with (err, name, subPath) of that same call — with the suite's only mount name == subPath, so a mix-up is invisible to the tests; (R06.4) the mount-table insertion is dominated by ValidPath, not-root, a successful open+Stat of the mount point — addressed through the mount point's own route, Mount(p) or Mount(path.Dir(p)) joined with path.Base(p) — and IsDir, and is an atomic LoadOrStore whose 'loaded' result is answered with ErrExist; (R06.5) cross-mount rename: after the destination was created, every failing return removes the destination first, and the source is removed only after the copy succeeded and the destination's Close returned nil; (R06.6) no call of a Mount(name) route resolution in the module passes a string that can never satisfy ValidPath (the directory half of path.Split, a concatenation ending in '/', an invalid constant): such a call always falls on the invalid-name route — the root file system — whatever is mounted. NOT claimed: that an operation's effect equals the direct call on the routed file system; isolation of sibling file systems; interleavings of AddMount beyond the atomic-insert shape.")
+	c.Explain("Structural clauses of C06 decided from source: (R06.1) every strings.HasPrefix test of a name against a stored path (mount keys in mount.mountPoint, record keys in the in-memory store's listing) uses a prefix ending in \"/\" — 'a' never captures 'ab'; (R06.2) in the mount-table scan, every update of the best-so-far pair on the prefix path is guarded by a strict length comparison between the candidate and the current best, so the result does not depend on iteration order, and the exact-match path stores the candidate itself; (R06.3) every MountFS branch of the helpers (and mount.Rename per name) delegates with the file system and sub-path of ONE Mount call and translates the error with (err, name, subPath) of that same call — with the suite's only mount name == subPath, so a mix-up is invisible to the tests; (R06.4) the mount-table insertion is dominated by ValidPath, not-root, a successful open+Stat of the mount point — addressed through the mount point's own route, Mount(p) or Mount(path.Dir(p)) joined with path.Base(p) — and IsDir, and is an atomic LoadOrStore whose 'loaded' result is answered with ErrExist; (R06.5) cross-mount rename: after the destination was created, every failing return removes the destination first, and the source is removed only after the copy succeeded and the destination's Close returned nil; (R06.6) no call of a Mount(name) route resolution in the module passes a string that can never satisfy ValidPath (the directory half of path.Split, a concatenation ending in '/', an invalid constant): such a call always falls on the invalid-name route — the root file system — whatever is mounted; (R06.7) every helper that probes an optional capability interface of its file system also probes MountFS (exempt with reasons: Sub, Symlink, helpers that fall back to fs.Open) — a missing branch makes the operation fail with ErrNotImplemented through a Sub view or another MountFS although the routed file system supports it. NOT claimed: that an operation's effect equals the direct call on the routed file system; isolation of sibling file systems; interleavings of AddMount beyond the atomic-insert shape.")
 	c.Assume("A1: FS contract for mounted file systems", "A2: sync.Map.LoadOrStore is atomic")
 	c.RuleDoc("R06.1", "element-boundary prefix tests")
 	c.RuleDoc("R06.2", "longest match independent of iteration order")
 	c.RuleDoc("R06.3", "delegation uses one Mount call's (FS, subPath) pair and translates with it")
 	c.RuleDoc("R06.4", "AddMount: validate, existing directory, atomic insert")
 	c.RuleDoc("R06.5", "cross-mount rename cleanup and ordering")
+	c.RuleDoc("R06.7", "every capability-probing helper has a MountFS branch")
 	c.RuleDoc("R06.6", "route resolutions are asked about names that can be valid")
 	for _, p := range c.Progs {
 		c.SetProg(p)
@@ -49,6 +50,7 @@ func runC06(c *core.Ctx) {
 		r06AddMount(c, p)
 		r06Rename(c, p)
 		r06RouteArgs(c, p)
+		r06EveryHelperRoutes(c, p, "R06.7")
 	}
 	c.Floor("R06.1", 2)
 	c.Floor("R06.2", 2)
@@ -56,6 +58,7 @@ func runC06(c *core.Ctx) {
 	c.Floor("R06.4", 1)
 	c.Floor("R06.5", 2)
 	c.Floor("R06.6", 15)
+	c.Floor("R06.7", 15)
 }
 
 // r06Longest: stores into the captured result cells inside the Range callback.
@@ -128,6 +131,18 @@ func r06Pairs(c *core.Ctx, p *load.Program) {
 	eng := newErrEngine(p)
 	for _, fn := range fns {
 		ord := ordinals{}
+		// a two-name helper (Rename): each name routed on its own, delegated only when both routes end in the same
+		// file system, with both sub-paths in order, and the error renamed to the caller's two names
+		var mounts []*ssa.Call
+		ssax.Instrs(fn, func(ins ssa.Instruction) {
+			if mc, ok := ins.(*ssa.Call); ok && mc.Call.IsInvoke() && mc.Call.Method.Name() == "Mount" {
+				mounts = append(mounts, mc)
+			}
+		})
+		if len(mounts) == 2 {
+			r06TwoRoutes(c, p, fn, mounts)
+			continue
+		}
 		ssax.Instrs(fn, func(ins ssa.Instruction) {
 			mc, ok := ins.(*ssa.Call)
 			if !ok || !mc.Call.IsInvoke() || mc.Call.Method.Name() != "Mount" {
@@ -584,4 +599,159 @@ func constOf(p *load.Program, name string) int64 {
 		}
 	}
 	return 0
+}
+
+// r06TwoRoutes: the MountFS branch of a two-name helper.
+func r06TwoRoutes(c *core.Ctx, p *load.Program, fn *ssa.Function, mounts []*ssa.Call) {
+	key := fname(fn) + "|two-routes"
+	var problems []string
+	fs1, sub1 := ssax.ExtractOf(mounts[0], 0), ssax.ExtractOf(mounts[0], 1)
+	fs2, sub2 := ssax.ExtractOf(mounts[1], 0), ssax.ExtractOf(mounts[1], 1)
+	n1, n2 := mounts[0].Call.Args[0], mounts[1].Call.Args[0]
+	if fs1 == nil || fs2 == nil || sub1 == nil || sub2 == nil {
+		c.Bad("R06.3", key, p.Pos(mounts[0].Pos()), fmt.Sprintf("%s discards a result of one of its two Mount calls", fname(fn)))
+		return
+	}
+	if n1 == n2 {
+		problems = append(problems, "both Mount calls route the same name")
+	}
+	// delegation
+	var deleg *ssa.Call
+	for _, r := range *fs1.Referrers() {
+		if cl, ok := r.(*ssa.Call); ok && ssax.StaticCallee(cl) != nil && len(cl.Call.Args) >= 3 && cl.Call.Args[0] == ssa.Value(fs1) {
+			var strs []ssa.Value
+			for _, a := range cl.Call.Args {
+				if isStr(a.Type()) {
+					strs = append(strs, a)
+				}
+			}
+			if len(strs) == 2 {
+				deleg = cl
+				if strs[0] != ssa.Value(sub1) || strs[1] != ssa.Value(sub2) {
+					problems = append(problems, fmt.Sprintf("%s receives (%s, %s) instead of the two sub-paths in order", ssax.CallName(cl), vname(strs[0]), vname(strs[1])))
+				}
+			}
+		}
+	}
+	if deleg == nil {
+		problems = append(problems, "no call is delegated to the routed file system with both sub-paths")
+	} else {
+		// same file system: a dominating test involving both routed file systems
+		same := false
+		for _, f := range ssax.FactsAtInstr(deleg) {
+			uses1, uses2 := false, false
+			switch x := f.Cond.(type) {
+			case *ssa.Call:
+				for _, a := range x.Call.Args {
+					if a == ssa.Value(fs1) {
+						uses1 = true
+					}
+					if a == ssa.Value(fs2) {
+						uses2 = true
+					}
+				}
+			case *ssa.BinOp:
+				uses1 = x.X == ssa.Value(fs1) || x.Y == ssa.Value(fs1)
+				uses2 = x.X == ssa.Value(fs2) || x.Y == ssa.Value(fs2)
+			}
+			if uses1 && uses2 {
+				same = true
+			}
+		}
+		if !same {
+			problems = append(problems, "the delegation is not guarded by a test that both names routed to the same file system (the second name's sub-path would be applied to the first name's file system)")
+		}
+		// error renamed to the caller's names
+		if ev := errLikeValueOf(deleg); ev != nil {
+			renamed := false
+			for _, r := range *ev.Referrers() {
+				if tc, ok := r.(*ssa.Call); ok && ssax.StaticCallee(tc) != nil {
+					var strs []ssa.Value
+					for _, a := range tc.Call.Args {
+						if isStr(a.Type()) {
+							strs = append(strs, a)
+						}
+					}
+					if len(strs) == 2 && strs[0] == n1 && strs[1] == n2 {
+						renamed = true
+					}
+				}
+			}
+			if !renamed {
+				problems = append(problems, "the delegated call's error is not rewritten with the caller's two names")
+			}
+		}
+	}
+	if len(problems) == 0 {
+		c.OK("R06.3", key, p.Pos(mounts[0].Pos()), "each name routed on its own; delegated with both sub-paths only when both routes end in one file system; error renamed to the caller's names")
+	} else {
+		c.Bad("R06.3", key, p.Pos(mounts[0].Pos()), fmt.Sprintf("%s: %s", fname(fn), strings.Join(problems, "; ")))
+	}
+}
+
+// r06EveryHelperRoutes (R06.7): every helper that probes its file system for an optional capability interface also
+// has a MountFS branch — otherwise the operation works on the parts of a composition that implement it natively and
+// fails with ErrNotImplemented on the generic Sub view or on any other MountFS (Rename through Sub(fs, dir)).
+// Exempt, with reasons: Sub (a view must keep the router, R07.4), Symlink (the link target is a path of the link's
+// own directory, which the route translation cannot rewrite), and helpers whose fallback is the generic Open.
+func r06EveryHelperRoutes(c *core.Ctx, p *load.Program, rule string) {
+	mountI := ifaceOf(p, "", "MountFS")
+	fsI := stdIface(p, "io/fs", "FS")
+	if mountI == nil || fsI == nil {
+		c.Hard("anchor: hackpadfs.MountFS")
+		return
+	}
+	exempt := map[string]string{
+		"Sub":     "a view keeps the router itself (R07.4)",
+		"Symlink": "the link target is relative to the link and cannot be rewritten by the route translation",
+	}
+	for _, fn := range helperFuncs(p) {
+		if len(fn.Params) == 0 || !types.Implements(fn.Params[0].Type(), fsI) {
+			continue
+		}
+		caps, routes := 0, false
+		ssax.Instrs(fn, func(ins ssa.Instruction) {
+			ta, ok := ins.(*ssa.TypeAssert)
+			if !ok || ta.X != ssa.Value(fn.Params[0]) {
+				return
+			}
+			it, ok := ta.AssertedType.Underlying().(*types.Interface)
+			if !ok {
+				return
+			}
+			if types.Identical(it, mountI) {
+				routes = true
+			} else {
+				caps++
+			}
+		})
+		if caps == 0 {
+			continue
+		}
+		key := fname(fn) + "|has-mount-branch"
+		fallsBackToOpen := false
+		ssax.Instrs(fn, func(ins ssa.Instruction) {
+			cl, ok := ins.(*ssa.Call)
+			if !ok {
+				return
+			}
+			if cl.Call.IsInvoke() && cl.Call.Method.Name() == "Open" && cl.Call.Value == ssa.Value(fn.Params[0]) {
+				fallsBackToOpen = true
+			}
+			// or to another helper of the package with the same file system (Create -> OpenFile), which routes itself
+			if callee := ssax.StaticCallee(cl); callee != nil && callee != fn && callee.Pkg == fn.Pkg && callee.Signature.Recv() == nil && len(cl.Call.Args) > 0 && cl.Call.Args[0] == ssa.Value(fn.Params[0]) {
+				fallsBackToOpen = true
+			}
+		})
+		switch {
+		case routes:
+			c.OK(rule, key, p.Pos(fn.Pos()), "probes MountFS besides its capability interface")
+		case exempt[fn.Name()] != "":
+			c.OKTrivial(rule, key, p.Pos(fn.Pos()), "exempt: "+exempt[fn.Name()])
+		case fallsBackToOpen:
+			c.OKTrivial(rule, key, p.Pos(fn.Pos()), "falls back to fs.Open or to another helper with the same file system, which route themselves")
+		default:
+			c.Bad(rule, key, p.Pos(fn.Pos()), fmt.Sprintf("%s probes an optional capability of its file system but has no MountFS branch: through a generic Sub view or any MountFS that does not implement the capability itself the operation fails with ErrNotImplemented although the routed file system supports it", fname(fn)))
+		}
+	}
 }
